@@ -32,7 +32,7 @@ func profPairingFor(h int) *Profile {
 
 func TestC02(t *testing.T) {
 	run := ev.Start("C02")
-	nHist, nOps := run.Pick(8, 100), run.Pick(400, 1200)
+	nHist, nOps := run.Pick(8, 40), run.Pick(400, 1200)
 	for h := 0; h < nHist; h++ {
 		var pm *PairingMon
 		s := History(t, run, profPairingFor(h), h, nOps, func(id string) []Monitor {
@@ -71,7 +71,7 @@ func (m *DigestMon) AfterBlock(s *Sim, b *BlockRes) {
 
 func TestC01(t *testing.T) {
 	run := ev.Start("C01")
-	nHist, nOps, replays, repeat := run.Pick(4, 40), run.Pick(300, 1200), run.Pick(3, 6), run.Pick(128, 512)
+	nHist, nOps, replays, repeat := run.Pick(4, 10), run.Pick(300, 600), run.Pick(3, 4), run.Pick(64, 256)
 	for h := 0; h < nHist; h++ {
 		var first *DigestMon
 		var firstStores []map[string]string
@@ -122,6 +122,6 @@ func TestC01(t *testing.T) {
 	run.Require("repeated pairing queries", run.Counter("repeated_queries") > 1000)
 	run.Require("lists under mix mode (map-order sensitive filters)", run.Counter("lists_under_mix_mode") > 0)
 	run.Require("replays compared", run.Counter("replays_compared") > 0)
-	run.Finish("policy-heavy generated histories; (a) every GetPairing query at every epoch start is repeated R times in the same block and must return the identical ordered list (Go re-randomises map iteration on every range, so repetition samples map orders: a two-way order dependence escapes R=128 repetitions with probability (7/8)^128); (b) each history is executed several times from scratch in the same process and the per-block digest of all stores + bank and the tx result vector must be identical; distinct non-trivial = histories replayed", nHist,
+	run.Finish("policy-heavy generated histories; (a) every GetPairing query at every epoch start is repeated R times in the same block and must return the identical ordered list (Go re-randomises map iteration on every range, so repetition samples map orders: a two-way order dependence that changes the result once in 8 evaluations escapes R=64 repetitions with probability (7/8)^64 ~ 2e-4); (b) each history is executed several times from scratch in the same process and the per-block digest of all stores + bank and the tx result vector must be identical; distinct non-trivial = histories replayed", nHist,
 		"replays run in one process (same hash seed of the runtime, but map iteration order is still re-randomised per range); goroutine scheduling does not affect the keepers, which are single-threaded")
 }
